@@ -32,13 +32,15 @@ type c13Plan struct {
 	SendAfter   bool   `json:"send_after,omitempty"`
 	FlushFull   bool   `json:"flush_full,omitempty"` // the cancelled send is the flush of a message that exactly filled its packets
 	// close
-	Logout      string `json:"logout,omitempty"` // answer | late | never
-	LateMs      int    `json:"late_ms,omitempty"`
-	DoubleClose bool   `json:"double_close,omitempty"`
-	CloseAfter  int    `json:"close_after,omitempty"`
-	NLogical    int    `json:"nlogical,omitempty"`
-	Sends       int    `json:"sends,omitempty"`
-	ConsumeSome int    `json:"consume_some,omitempty"`
+	Logout string `json:"logout,omitempty"` // answer | late | never
+	// ConcurrentClose (closed-calls): two goroutines call Close on the channel at the same time.
+	ConcurrentClose bool `json:"concurrent_close,omitempty"`
+	LateMs          int  `json:"late_ms,omitempty"`
+	DoubleClose     bool `json:"double_close,omitempty"`
+	CloseAfter      int  `json:"close_after,omitempty"`
+	NLogical        int  `json:"nlogical,omitempty"`
+	Sends           int  `json:"sends,omitempty"`
+	ConsumeSome     int  `json:"consume_some,omitempty"`
 }
 
 type c13 struct{}
@@ -53,7 +55,7 @@ func (c13) NRuns(tier string) int {
 	return 12000
 }
 func (c13) Rule() string {
-	return "scenario kinds: cancel (a consumer in NextPackage/NextPackageUntil while packets arrive asynchronously, a canceller cancels its own or the connection's context at a scheduled step; then a send - or the flush of a message that exactly filled its packets - with the cancelled context), close-recv (Close while a consumer is blocked in a receive on the same channel), closed-calls (every API call after Close, double Close), conn-close (Conn.Close with 0..2 logical channels), close-queue (Close with 0..capacity+3 abandoned packages queued, reader possibly blocked on a full queue; logout answered, answered late or never), close-send (Close racing SendPackage on the same channel); every sync point is a seeded scheduling choice; bounded liveness = no client task still blocked at quiescence and Close within 60s of simulated time; non-trivial = the cancel/close landed while another task was inside a call on the channel; distinct = distinct (kind, schedule-trace hash)"
+	return "scenario kinds: cancel (a consumer in NextPackage/NextPackageUntil while packets arrive asynchronously, a canceller cancels its own or the connection's context at a scheduled step; then a send - or the flush of a message that exactly filled its packets - with the cancelled context), close-recv (Close while a consumer is blocked in a receive on the same channel), closed-calls (every API call after Close, double Close, two goroutines closing the same channel at once), conn-close (Conn.Close with 0..2 logical channels), close-queue (Close with 0..capacity+3 abandoned packages queued, reader possibly blocked on a full queue; logout answered, answered late or never), close-send (Close racing SendPackage on the same channel); every sync point is a seeded scheduling choice; bounded liveness = no client task still blocked at quiescence and Close within 60s of simulated time; non-trivial = the cancel/close landed while another task was inside a call on the channel; distinct = distinct (kind, schedule-trace hash)"
 }
 func (c13) Components() map[string]string {
 	return map[string]string{"tds (Conn, reader goroutine, Channel incl. Close/Logout/NextPackage/SendPackage)": "real (rewritten), RWMutex writer preference modelled", "transport": "stub: simrt.Conn", "server": "stub: scripted peer with logout policies", "clock/contexts": "simulated (1-minute logout timeout costs no wall time)"}
@@ -86,6 +88,7 @@ func (c13) Gen(r *Rand, idx int, tier string) interface{} {
 	p.Logout = Pick(r, []string{"answer", "answer", "late", "never"})
 	p.LateMs = Pick(r, []int{10, 1000, 59000, 61000})
 	p.DoubleClose = r.Pct(40)
+	p.ConcurrentClose = p.Kind == "closed-calls" && r.Pct(40)
 	p.CloseAfter = r.Intn(10)
 	p.NLogical = r.Intn(3)
 	p.Sends = 1 + r.Intn(4)
@@ -465,6 +468,13 @@ func c13ClosedCalls(p *c13Plan, res *c13Res, conn *tds.Conn, ch *tds.Channel) {
 			ch.NextPackage(bg, true)
 		}
 		simrt.Sleep(time.Millisecond)
+	}
+	var closer2 *simrt.Task
+	if p.ConcurrentClose {
+		// a second goroutine closes the same channel at the same time: whichever Close call returns first, the
+		// channel is closed from then on
+		closer2 = simrt.Spawn("closer2", func() { _ = ch.Close() })
+		defer simrt.Join(closer2)
 	}
 	res.closeStart = simrt.SimNow()
 	_ = ch.Close()
